@@ -21,6 +21,13 @@ RULE = ('differential: a chain of 2-4 connect() calls on ONE WebSocket '
         'plus pairwise different keys.  Non-trivial = the last connection '
         'reached Ready; distinct = distinct (ending kinds, last-script '
         'layout) signatures')
+RULE += (' ThreadSim families: an application thread is inside close() or '
+         'a send while the consumer abandons the event loop and connects the '
+         'object again (release-then-connect, rebind, or the old generator '
+         'kept); one pre-emption at every step, and the application thread '
+         'taken off the CPU for 2-3 simulated seconds at every step of its '
+         'call; unless a Close was written on the second connection, sends '
+         'made there must be accepted.')
 RULE += (' '
          'Abandonment mechanisms: break, raise, close(), rebind (new '
          'generator before the old one is released) and hold (old generator '
@@ -28,7 +35,7 @@ RULE += (' '
          'may negotiate other deflate parameters or decline; the last '
          'connection may be closed by the application between Connected and '
          'Ready with a server that never answers.')
-SHRINK_LISTS = [('prev',), ('items',)]
+SHRINK_LISTS = [('prev',), ('items',), ('schedule', 'points')]
 EXPECTED_PROBES = ['prev_mid_http', 'prev_mid_frame_header', 'prev_mid_ext_len',
                    'prev_mid_payload', 'prev_mid_fragment_text',
                    'prev_mid_compressed', 'prev_while_closing', 'prev_rejected',
@@ -36,7 +43,8 @@ EXPECTED_PROBES = ['prev_mid_http', 'prev_mid_frame_header', 'prev_mid_ext_len',
                    'prev_connect_fail_then_close', 'prev_close_on_connecting',
                    'prev_close_truncated_reason', 'prev_bad_utf8_text',
                    'prev_inflate_error', 'prev_sent_compressed',
-                   'last_declines_compression', 'last_with_compression']
+                   'last_declines_compression', 'last_with_compression',
+                   'threaded_reconnect', 'thread_frozen']
 
 ENDINGS = ['mid_http', 'mid_frame_header', 'mid_ext_len', 'mid_payload',
            'mid_fragment_text', 'mid_compressed', 'while_closing', 'rejected',
@@ -49,10 +57,174 @@ EXT = b'Sec-WebSocket-Extensions: permessage-deflate'
 
 
 def plan(tier):
-    return [('seeded', 8000 if tier == 'quick' else 150000)]
+    return [('seeded', 8000 if tier == 'quick' else 150000),
+            ('threaded_sweep', len(TBASES) * TSLOT * 2),
+            ('threaded_random', 400 if tier == 'quick' else 40000)]
+
+
+# ThreadSim: an application thread is inside close() / a send on the object
+# while the consumer abandons the event loop and connects the object again
+TSLOT = 2000
+_CLOSE = {'op': 'close', 'code': 1000, 'reason': 'bye'}
+_TXT = {'op': 'send_text', 'text': 'T1-0-' + 'w' * 50}
+TBASES = [
+    {'name': 'close_vs_reconnect', 'threads': [[_CLOSE]],
+     'abandon': {'name': 'poll', 'nth': 1}},
+    {'name': 'close_vs_reconnect_at_text', 'threads': [[_CLOSE]],
+     'abandon': {'name': 'text', 'nth': 0}},
+    {'name': 'send_close_vs_rebind', 'threads': [[_TXT, _CLOSE]],
+     'abandon': {'name': 'poll', 'nth': 1}, 'rebind': True},
+    {'name': 'two_closers_vs_reconnect', 'threads': [[_CLOSE], [_TXT, _CLOSE]],
+     'abandon': {'name': 'poll', 'nth': 2}},
+    # the consumer keeps the abandoned generator: the old socket stays open
+    {'name': 'close_vs_reconnect_old_kept', 'threads': [[_CLOSE]],
+     'abandon': {'name': 'poll', 'nth': 1}, 'hold': True},
+]
+_TINFO = {}
+
+
+def _tscenario(case):
+    first = {'server': S.handshake_steps() + [
+        S.send(peer.enc_frame(1, b'one'), after=300007),
+        {'op': 'silence'}]}
+    second = {'server': S.handshake_steps() + [
+        S.send(peer.enc_frame(1, b'two'), after=700003),
+        S.send(peer.enc_frame(1, b'three'), after=1800007),
+        S.send(peer.enc_frame(1, b'four'), after=1500001),
+        S.eof(after=1500009)]}
+    return {'url': 'ws://example.test/', 'ws': {'compress': False},
+            'connect': {'poll': 0.25, 'ping_rate': 0, 'close_timeout': 30},
+            'conns': [first, second], 'n_connects': 2,
+            'rebind': bool(case.get('rebind')), 'hold': bool(case.get('hold')),
+            'threads': case['threads'],
+            'schedule': case.get('schedule') or {'kind': 'preempt',
+                                                 'points': []},
+            'start_at': {'name': 'ready'}, 'max_steps': 60000,
+            'app': [{'when': dict(case['abandon'], attempt=0),
+                     'do': [{'op': 'abandon', 'how': 'break'}]},
+                    {'when': {'name': 'text', 'attempt': 1},
+                     'do': [{'op': 'send_text',
+                             'text': 'reply on the second connection'}]}]}
+
+
+def _tinfo(b):
+    from .. import threadsim
+    if b not in _TINFO:
+        c = dict(TBASES[b])
+        tr, sched = threadsim.run(_tscenario(c))
+        last = max([x.step1 for x in tr.tcalls] or [0])
+        _TINFO[b] = (min(max(last, 200) + 200, sched.steps),
+                     len(c['threads']) + 1)
+    return _TINFO[b]
+
+
+def _threaded_case(family, i, rng):
+    import copy
+    from .. import threadsim
+    if family == 'threaded_sweep':
+        senders_first = i >= len(TBASES) * TSLOT
+        i %= len(TBASES) * TSLOT
+        b = i // TSLOT
+        n, nt = _tinfo(b)
+        slot = i % TSLOT
+        step, who = slot // (nt + 1), slot % (nt + 1)
+        if step < 2 or step > n:
+            return None
+        tid = who if who < nt else threadsim.CLOCK
+        case = copy.deepcopy(TBASES[b])
+        if senders_first:
+            # the application thread runs first and is taken off the CPU for
+            # two simulated seconds at this step of its call: meanwhile the
+            # consumer abandons the loop and connects again
+            if who >= nt or who == 0:
+                return None
+            case['schedule'] = {'kind': 'preempt', 'points': [[1, 1]],
+                                'freeze': [[step, who,
+                                            [2000003, 3300001][step % 2]]]}
+        else:
+            case['schedule'] = {'kind': 'preempt', 'points': [[step, tid]]}
+    else:
+        case = copy.deepcopy(TBASES[rng.randrange(len(TBASES))])
+        case['schedule'] = {'kind': 'random', 'seed': rng.getrandbits(32),
+                            'stay': rng.choice([0.5, 0.8, 0.95])} \
+            if rng.random() < 0.6 else \
+            {'kind': 'pct', 'seed': rng.getrandbits(32),
+             'd': rng.choice([1, 2, 3]), 'horizon': 800}
+    case['threaded'] = True
+    return case
+
+
+def _execute_threaded(case):
+    """The second connection of the object starts clean although another
+    thread was inside close() / a send while the first one was abandoned:
+    unless a Close was written on the second connection, a send made there
+    while it is up is accepted."""
+    from .. import threadsim
+    import hashlib
+    res = Result()
+    tr, sched = threadsim.run(_tscenario(case))
+    w = tr.world
+    res.stats.update(w.stats)
+    for k, v in sched.stats.items():
+        res.stats['probe:' + k] += v
+    res.sim_us = w.now
+    h = hashlib.sha256(tr.digest().encode())
+    h.update(repr(sorted(sched.switches.items())).encode())
+    h.update(repr([(c.tid, c.k, c.outcome, c.exc) for c in tr.tcalls]
+                  ).encode())
+    res.digest = h.hexdigest()
+    if sched.error is not None:
+        raise RuntimeError('ThreadSim harness error: %r' % (sched.error,))
+    if tr.hang:
+        res.bad('C17/threaded/hang', tr.hang)
+    if tr.escaped:
+        res.bad('C17/threaded/escaped', '%s %s' % tr.escaped)
+    atts = oracle.split_attempts(tr.events)
+    res.stats['probe:threaded_reconnect'] += 1
+    if len(atts) >= 2 and len(w.socks) >= 2:
+        last = atts[-1]
+        names = [e.name for e in last]
+        wire2 = oracle.Wire(w.socks[-1])
+        closes = [f for f in wire2.frames if f.opcode == peer.OP_CLOSE]
+        first_idx = last[0].index
+        for c in tr.calls:
+            if c.at_event is None or c.at_event < first_idx:
+                continue
+            if c.outcome == 'raised' and c.exc in ('WebSocketClosing',
+                                                   'WebSocketClosed') \
+                    and not closes and 'ready' in names:
+                res.bad('C17/threaded/clean_connection_refuses_send',
+                        'second connection: ready, no Close written on it, '
+                        'yet %s at %s raised %s | events %s | calls of the '
+                        'other threads %s | %s' % (
+                            c.op, tr.events[c.at_event].name, c.exc,
+                            names[-6:],
+                            [(x.tid, x.op['op'], x.outcome) for x in tr.tcalls],
+                            site_sig(sched)))
+                break
+        if 'ready' in names and not closes and 'text' not in names:
+            res.bad('C17/threaded/message_lost_on_clean_connection',
+                    'events of the second connection: %s' % names[-6:])
+        res.nontrivial = 'ready' in names
+    else:
+        res.nontrivial = False
+    res.sig = 'thr|%s|%s' % (case['name'], site_sig(sched))
+    res.sample = {'base': case['name'], 'schedule': case.get('schedule'),
+                  'events': [e.name for e in tr.events][-12:],
+                  'tcalls': [(x.tid, x.op['op'], x.outcome, x.exc)
+                             for x in tr.tcalls]}
+    return res
+
+
+def site_sig(sched):
+    return ';'.join('%d>%d@%s' % (a, b, w_ if isinstance(w_, str) else
+                                  '%s:%d' % w_)
+                    for a, b, w_ in sched.switch_sites[:12])
 
 
 def make_case(family, i, rng, tier):
+    if family.startswith('threaded'):
+        return _threaded_case(family, i, rng)
     n = rng.choice([1, 1, 2, 3])
     prev = []
     for _ in range(n):
@@ -342,6 +514,8 @@ def _normalise(tr, compress):
 
 
 def execute(case):
+    if case.get('threaded'):
+        return _execute_threaded(case)
     res = Result()
     ref_sc, chain_sc, expected = build(case)
     tr_ref = netsim.run(ref_sc)
